@@ -1847,8 +1847,10 @@ def scen_model(s):
     """scale a real scenario to the model's units: evtCh 512 -> 2 (unit 256), srCh 128 -> 1 (unit 128)"""
     c = {"EvtCap": 2, "SrCap": 1, "ToCap": 1, "Dels": 0, "Reports": 0, "Mcasts": 0, "NlCalls": 0, "Timers": 0, "WithStop": "FALSE", "DoneChan": "TRUE"}
     if s["kind"] == "perio":
-        per_turn = s["n"] * s["u"] if s["bulk"] == "reassoc" else s["u"]
-        c["Dels"] = ceil_div(per_turn, 256)
+        # timer events the removals post: all of them can pile up in the periodic server's queue while that server is busy with
+        # the tick's query - in one loop turn (re-association) or over many turns (one Deletion Request per session); the loop
+        # blocks on the first send that finds the queue full either way
+        c["Dels"] = ceil_div(s["n"] * s["u"], 256)
         c["Reports"] = ceil_div(s["n"], 128)
     elif s["kind"] == "mcast":
         c["Mcasts"] = ceil_div(s["burst"], 128)
